@@ -314,6 +314,9 @@ Hopen(const char *path, int acc_mode, int16 ndds)
             file_rec->file      = f;
             file_rec->f_cur_off = 0;
             file_rec->last_op   = H4_OP_UNKNOWN;
+            /* the stream is writable now: record it, or every write through the id
+               returned below is refused with DFE_DENIED */
+            file_rec->access = acc_mode | DFACC_READ;
         }
 
         /* There is now one more open to this file. */
